@@ -528,6 +528,8 @@ class MergeFlow(Engine):
         if isinstance(id, NoneV) and mode == 'wildcard':
             self.find_('WILDCARD', st, node, cons,
                        'the ID operand may be None (blank or absent reference) and the lookup then selects the first child of that tag')
+        if id is not None and tag == self.role[1]:
+            st.mon['lvlookups'] = min((st.mon.get('lvlookups') or 0) + 1, 3)
         if result is not None and self.role[0] == 'MOVE' and tag == self.role[1]:
             st.mon['movehits'] = min((st.mon.get('movehits') or 0) + 1, 3)
         if result is not None and self.role[0] == 'DELETE' and tag == self.role[1]:
@@ -806,6 +808,19 @@ class MergeFlow(Engine):
         rec['guard_present'] = list(s.mon.get('guard_present') or ())
         evs = [e.kind for e in s.events() if e.kind in ('lookup', 'remove', 'insert', 'append', 'setitem', 'newchild', 'warn', 'copy')]
         rec['effects'] = sorted(set(evs))
+        if kind == 'END' and not isinstance(v, Raise):
+            # what ended up inside the new root child(ren): (provenance, tag, is it a deep copy of the message's own element)
+            inside = []
+            root_sym = self.ro_root.sym if isinstance(self.ro_root, Ref) else None
+            for sym, e in s.heap.items():
+                if isinstance(e, ElemE) and e.prov == 'NEW' and e.parent == root_sym and e.attached is True:
+                    for csym, c in s.heap.items():
+                        if isinstance(c, ElemE) and c.parent == sym and c.attached is True:
+                            src = s.heap.get(c.copy_of) if c.copy_of else None
+                            whole = isinstance(src, ElemE) and src.prov == 'MSG' and src.parent is not None and isinstance(s.heap.get(src.parent), ElemE) \
+                                and s.heap[src.parent].origin[0] == 'root' and c.origin and c.origin[0] == 'copy'
+                            inside.append([c.prov, c.tag, bool(whole)])
+            rec['marker_content'] = sorted(inside)
         if not isinstance(v, Raise) and isinstance(ro, Ref):
             fi = self.prog.cls('RunningOrder').find('completed')
             vals = set()
@@ -838,6 +853,10 @@ class MergeFlow(Engine):
                          'adding a message to a running order that is not completed returns without handing it to its merge(): the message is dropped silently',
                          '?', 0, self.entry, self.witness(s))
             self.findings.setdefault(fd.key, fd)
+        need = {'SWAP': 2}.get(kind)          # (other roles have legitimate early exits: a story that is not there, an empty list of references)
+        if need and not self.envelope_only and (s.mon.get('lvlookups') or 0) < need and s.mon.get('merge_entered'):
+            self.find_at_merge('MISS-REPORTED', f'normal return after {s.mon.get("lvlookups") or 0} of the (at least) {need} named {level} references were looked up',
+                               f'the merge returns normally without looking up every {level} it names: a reference that matches nothing is neither raised nor warned about')
         if not (isinstance(v, Ref) and v == ro):
             self.find_at_merge('RETURNS-RO', f'return {self.describe(v, s)}', 'merge must return the running order it was given')
         for sym, (func, cons) in (s.mon.get('sym:hits') or {}).items():
